@@ -266,3 +266,80 @@ package diam
 //@   replay hop_by_hop_mirrored: r0.Header.HopByHopID == RECV.Header.HopByHopID
 //@   replay end_to_end_mirrored: r0.Header.EndToEndID == RECV.Header.EndToEndID
 //@ end
+//@
+//@ # ======================= reading from a stream (C05, C06, C03) =============
+//@ func newReaderBuffer() (buf)
+//@   property C03 C05 C06
+//@   modifies
+//@   assume buffer_length_setting: MessageBufferLength >= 20 && MessageBufferLength < 1<<30
+//@   ensures made: buf != nil && cap(bufslice(buf)) >= 20
+//@ end
+//@
+//@ func putReaderBuffer(b)
+//@   property C03 C05 C06
+//@   requires b != nil
+//@   assume buffer_length_setting: MessageBufferLength >= 20 && MessageBufferLength < 1<<30
+//@   modifies bufslice(any)
+//@ end
+//@
+//@ func readerBufferSlice(buf, l) (r)
+//@   property C03 C05 C06
+//@   requires buf != nil && l >= 0 && l < 1<<32
+//@   assume buffer_length_setting: MessageBufferLength >= 20 && MessageBufferLength < 1<<30
+//@   modifies
+//@   ensures [C05] exact: len(r) == l
+//@   ensures [C06] pooled_or_fresh: prefixof(r, bufslice(buf)) || fresh(r)
+//@   alloc [C03] claimed_length: alloc <= MessageBufferLength
+//@ end
+//@
+//@ func (*Message).maxAVPsFor(m, cmd) (n)
+//@   property C03 C05
+//@   pure
+//@   requires m != nil && m.Header != nil && cmd != nil
+//@   ensures nonneg: n >= 0 && n < 1<<46
+//@ end
+//@
+//@ func (*Message).readHeader(m, r, buf) (cmd, stream, err)
+//@   property C03 C05
+//@   requires m != nil && r != nil && buf != nil && cap(bufslice(buf)) >= 20 && !implements(r, MultistreamReader)
+//@   requires stream_wf: 0 <= pos(r) && pos(r) <= len(stream(r))
+//@   assume default_dictionary_initialised: dict.Default != nil
+//@   modifies m.Header, pos(r), bufslice(buf)[0:20]
+//@   ensures [C05] consumed: err == nil ==> pos(r) == old(pos(r)) + 20 && m.Header != nil && cmd != nil && hdr_wire(m.Header, stream(r)[old(pos(r)):])
+//@   ensures [C05] eof: old(pos(r)) == len(stream(r)) ==> err == io.EOF
+//@   ensures [C05] truncated: old(pos(r)) < len(stream(r)) && old(pos(r)) + 20 > len(stream(r)) ==> err != nil && err != io.EOF
+//@   ensures [C05] at_most_header: pos(r) <= old(pos(r)) + 20 && old(pos(r)) <= pos(r)
+//@   ensures [C05] within_stream: pos(r) <= len(stream(r))
+//@   ensures [C05] header_needs_20: err == nil ==> old(pos(r)) + 20 <= len(stream(r))
+//@   ensures [C05] whole_header_taken: old(pos(r)) + 20 <= len(stream(r)) ==> pos(r) == old(pos(r)) + 20
+//@ end
+//@
+//@ func (*Message).readBody(m, r, buf, cmd, stream) (err)
+//@   property C03 C05 C06
+//@   requires m != nil && m.Header != nil && r != nil && buf != nil && cmd != nil && !implements(r, MultistreamReader)
+//@   requires pool_buffer: cap(bufslice(buf)) >= 20
+//@   requires stream_wf: 0 <= pos(r) && pos(r) <= len(stream(r))
+//@   assume default_dictionary_initialised: dict.Default != nil
+//@   assume buffer_length_setting: MessageBufferLength >= 20 && MessageBufferLength < 1<<30
+//@   modifies m.AVP, pos(r), bufslice(buf)[0:cap(bufslice(buf))]
+//@   ensures [C05] reject_short_length: m.Header.MessageLength < 20 ==> err != nil && pos(r) == old(pos(r))
+//@   ensures [C05] consumed: err == nil ==> pos(r) == old(pos(r)) + int(m.Header.MessageLength) - 20
+//@   ensures [C05] truncated: m.Header.MessageLength >= 20 && old(pos(r)) + int(m.Header.MessageLength) - 20 > len(stream(r)) ==> err != nil
+//@   ensures [C05] never_beyond: m.Header.MessageLength >= 20 ==> pos(r) <= old(pos(r)) + int(m.Header.MessageLength) - 20
+//@   ensures [C05] monotone: old(pos(r)) <= pos(r) && pos(r) <= len(stream(r))
+//@   ensures [C05] header_kept: m.Header == old(m.Header) && m.Header.MessageLength == old(m.Header.MessageLength)
+//@ end
+//@
+//@ func ReadMessage(reader, dictionary) (m, err)
+//@   property C03 C05 C06
+//@   requires reader != nil && !implements(reader, MultistreamReader)
+//@   requires stream_wf: 0 <= pos(reader) && pos(reader) <= len(stream(reader))
+//@   modifies pos(reader), bufslice(any), bytes(any)
+//@   ensures [C05] consumed: err == nil ==> m != nil && m.Header != nil && pos(reader) == old(pos(reader)) + int(be24(stream(reader), old(pos(reader)) + 1))
+//@   ensures [C05] header_read_back: err == nil ==> hdr_wire(m.Header, stream(reader)[old(pos(reader)):])
+//@   ensures [C05] eof_between_messages: old(pos(reader)) == len(stream(reader)) ==> err == io.EOF
+//@   ensures [C05] eof_inside_header: old(pos(reader)) < len(stream(reader)) && old(pos(reader)) + 20 > len(stream(reader)) ==> err != nil && err != io.EOF
+//@   ensures [C05] short_length_rejected: old(pos(reader)) + 20 <= len(stream(reader)) && be24(stream(reader), old(pos(reader)) + 1) < 20 ==> err != nil && pos(reader) == old(pos(reader)) + 20
+//@   ensures [C05] eof_inside_body: old(pos(reader)) + 20 <= len(stream(reader)) && be24(stream(reader), old(pos(reader)) + 1) >= 20 && old(pos(reader)) + int(be24(stream(reader), old(pos(reader)) + 1)) > len(stream(reader)) ==> err != nil
+//@   ensures [C05] never_beyond: old(pos(reader)) + 20 <= len(stream(reader)) && be24(stream(reader), old(pos(reader)) + 1) >= 20 ==> pos(reader) <= old(pos(reader)) + int(be24(stream(reader), old(pos(reader)) + 1))
+//@ end
